@@ -199,7 +199,7 @@ func (f *cfinding) what() string {
 	if f.o.Acc {
 		v, _ := f.o.observedValue()
 		got = "accepted, value " + wordsStr(k, v)
-		if !f.o.Folded && f.form != "case" {
+		if !f.o.Folded && baseForm(f.form) != "case" {
 			got += " computed at run time (" + f.o.Why + " left in the IR)"
 		}
 		if f.o.Trap != "" {
@@ -361,6 +361,11 @@ func runC06(tier, replay string) int {
 			return true, !clean(cs)
 		})
 	}
+	// chains: the operator nodes below the root are computed module-scope constants (`const A = x op y; const B = A op2 z;`)
+	isChain := func(cs *ccase) bool { return cs.OpClass == "chain" }
+	for _, f := range []string{"chain_modconst", "chain_fn"} {
+		addJobs(f, func(cs *ccase) (bool, bool) { return isChain(cs) && decided(cs), !clean(cs) })
+	}
 	addJobs("runtime", func(cs *ccase) (bool, bool) { return cs.Pred.RS == "ok", false })
 	intScalar := func(cs *ccase) bool {
 		k := kindOf(tOf(cs.Tree))
@@ -380,6 +385,17 @@ func runC06(tier, replay string) int {
 	addJobs("wgsize", func(cs *ccase) (bool, bool) {
 		return intScalar(cs) && ((clean(cs) && inRange(cs, 256)) || cs.Pred.S == "err"), !clean(cs)
 	})
+	addJobs("chain_case", func(cs *ccase) (bool, bool) {
+		return isChain(cs) && intScalar(cs) && (clean(cs) || cs.Pred.S == "err"), !clean(cs)
+	})
+	addJobs("chain_arraysize", func(cs *ccase) (bool, bool) {
+		return isChain(cs) && intScalar(cs) && ((clean(cs) && inRange(cs, 65535)) || cs.Pred.S == "err"), !clean(cs)
+	})
+	addJobs("chain_wgsize", func(cs *ccase) (bool, bool) {
+		return isChain(cs) && intScalar(cs) && ((clean(cs) && inRange(cs, 256)) || cs.Pred.S == "err"), !clean(cs)
+	})
+	addJobs("chain_assert_eq", func(cs *ccase) (bool, bool) { return isChain(cs) && lanesOf(tOf(cs.Tree)) == 0 && clean(cs), false })
+	addJobs("chain_assert_ne", func(cs *ccase) (bool, bool) { return isChain(cs) && lanesOf(tOf(cs.Tree)) == 0 && clean(cs), true })
 	addJobs("assert_eq", func(cs *ccase) (bool, bool) { return lanesOf(tOf(cs.Tree)) == 0 && clean(cs), false })
 	addJobs("assert_ne", func(cs *ccase) (bool, bool) { return lanesOf(tOf(cs.Tree)) == 0 && clean(cs), true })
 
@@ -453,7 +469,7 @@ func runC06(tier, replay string) int {
 	}
 	valueForm := map[string]bool{"fn": true, "let": true, "fnconst": true, "modconst": true, "named": true}
 	for _, f := range finds {
-		if !valueForm[f.form] || f.class == "type" {
+		if !valueForm[baseForm(f.form)] || f.class == "type" {
 			continue
 		}
 		sig := f.desc()["sig"]
@@ -571,7 +587,7 @@ func runConstJob(c *core.Ctx, j cjob, record func(cs *ccase, form, class, note s
 		p := &cprog{}
 		for _, cs := range cases {
 			s := p.add(cs, j.form)
-			if j.form == "case" && cs.Pred.S == "ok" {
+			if baseForm(j.form) == "case" && cs.Pred.S == "ok" {
 				p.inp[s.slot] = cs.Pred.V[0]
 			}
 		}
@@ -601,7 +617,7 @@ func runConstJob(c *core.Ctx, j cjob, record func(cs *ccase, form, class, note s
 			return
 		}
 		var second []int32
-		if j.form == "case" {
+		if baseForm(j.form) == "case" {
 			inp2 := append([]int32{}, p.inp...)
 			for _, s := range p.sites {
 				inp2[s.slot]++
@@ -626,7 +642,7 @@ func judgeSite(c *core.Ctx, form string, s *site, o *cobs, second []int32, recor
 	p := cs.Pred
 	k := kindOf(tOf(cs.Tree))
 	key := fmt.Sprintf("%s/%s/%s", form, cs.desc(), literalText(cs.Tree))
-	switch form {
+	switch baseForm(form) {
 	case "runtime":
 		// the run-time leg of the three-way comparison: deviations here are C01's business, not C06's
 		switch {
